@@ -8,11 +8,18 @@ MODES = ALL_MODES
 FUNCS = ["data:TimeRecurrence.__add__", "data:TimeRecurrence.__eq__",
          "data:TimeRecurrence.__hash__", "data:TimeRecurrence.__init__",
          "ghost:rec_shift_and_back", "ghost:rec_equal_implies_equal_hash",
-         "ghost:rec_unequal_when_one_component_differs"]
+         "ghost:rec_unequal_when_one_component_differs",
+         "parsers:TimeRecurrenceParser.parse"]
 LEMMAS = CAL_LEMMAS
 CANARIES = ["canary.week52"]
 QUICK_MODES = ["gregorian", "360day"]
 EXPLANATION = (
+    "PROVED, text -> value: the REAL TimeRecurrenceParser.parse executed on the three "
+    "notations as symbolic texts (R[n]/start/end, R[n]/start/interval, R[n]/interval/end; "
+    "points CCYY-MM-DDThh:mm:ss with Z or +hh:mm, interval PnDTnH): repetitions, start / "
+    "second / end point fields and interval components are exactly those spelled (regex "
+    "groups spanning several pieces by the lexing lemma, then the real point and duration "
+    "parsers and the real constructor). "
     "PROVED (exact shift durations, every notation incl. single-point recurrences): r + d "
     "has the same repetitions and interval and every anchor moved by len(d); d + r == r + d; "
     "(r + d) - d == r; == is exactly agreement of repetitions, start, end (by instant) and "
